@@ -101,6 +101,8 @@ impl<T> MailboxProducer<T> {
   /// This operation is **non-blocking**. If the mailbox buffer is full,
   /// the message is dropped, and the function returns immediately.
   pub(crate) fn deliver(&self, value: T) {
+    #[cfg(all(excsn_fibre_verif, not(loom)))]
+    crate::sync::verif_hook::point(); // verification seam H11
     let mut guard = self.shared.internal.lock();
 
     // If the buffer is full, drop the message and increment the counter.
@@ -116,6 +118,8 @@ impl<T> MailboxProducer<T> {
 
   /// Signals to the consumer that the channel is disconnected.
   pub(crate) fn disconnect(&self) {
+    #[cfg(all(excsn_fibre_verif, not(loom)))]
+    crate::sync::verif_hook::point(); // verification seam H11
     let mut guard = self.shared.internal.lock();
     if !guard.is_disconnected {
       guard.is_disconnected = true;
@@ -138,6 +142,8 @@ impl<T> Drop for MailboxProducer<T> {
 impl<T> MailboxConsumer<T> {
   /// Attempts to receive a message without blocking.
   pub(crate) fn try_recv(&self) -> Result<T, TryRecvError> {
+    #[cfg(all(excsn_fibre_verif, not(loom)))]
+    crate::sync::verif_hook::point(); // verification seam H11
     let mut guard = self.shared.internal.lock();
 
     if let Some(value) = guard.buffer.pop_front() {
